@@ -489,7 +489,51 @@ pub fn drive<P: PT>(seed: u64, runs: usize, events: usize, prof: &Profile, out: 
             let mut o = o;
             if prof.with_set && !on_b {
                 // the same call on a PrefixSet must behave like the map with unit values
+                let set_keys_before: Vec<Value> = {
+                    let mut es = vec![];
+                    crate::replay::tree_entries(&Coll::<P>::tree(&sset, &ctx), &mut es);
+                    es.into_iter().map(|e| json!([e[0], e[1]])).collect()
+                };
                 if let Some(os) = apply::<P, PrefixSet<P>>(&mut sset, &ev, &ctx) {
+                    if ev["a"] == "Retain" && os.ret != o.ret {
+                        // the order of retain's predicate calls is open (C10 / C20): without a panic the calls are
+                        // compared as a multiset; with one, the set is judged on the calls IT made, then put
+                        // back in step with the map
+                        let sorted = |v: &Value| -> Vec<String> {
+                            let mut a: Vec<String> = v.as_array().map(|x| x.iter().map(|y| y.to_string()).collect()).unwrap_or_default();
+                            a.sort();
+                            a
+                        };
+                        let ok = if !os.pan && !o.pan {
+                            sorted(&os.ret) == sorted(&o.ret)
+                        } else if os.pan && o.pan {
+                            let calls = os.ret.as_array().cloned().unwrap_or_default();
+                            let keep = ev["keep"].as_array().cloned().unwrap_or_default();
+                            let before = &calls[..calls.len().saturating_sub(1)];
+                            let want: Vec<Value> = set_keys_before
+                                .iter()
+                                .filter(|k| !(before.iter().any(|c| c["n"] == k[0]) && !keep.iter().any(|x| *x == k[0])))
+                                .cloned()
+                                .collect();
+                            let mut es = vec![];
+                            crate::replay::tree_entries(&Coll::<P>::tree(&sset, &ctx), &mut es);
+                            let got: Vec<Value> = es.into_iter().map(|e| json!([e[0], e[1]])).collect();
+                            calls.len() == o.ret.as_array().map(|a| a.len()).unwrap_or(0) && want == got
+                        } else {
+                            false
+                        };
+                        if ok {
+                            sset = target.keys().map(|p| P::from_repr_len(p.repr(), p.prefix_len())).collect();
+                            if !prof.obs_only {
+                                log_line(out, &ev, &o, Some(snap), tree);
+                            } else {
+                                let mut l = ev.clone();
+                                l["lenient"] = json!(true);
+                                writeln!(out, "{}", serde_json::to_string(&l).unwrap()).unwrap();
+                            }
+                            continue;
+                        }
+                    }
                     // (results, contents and length; the set's shape and arena are judged by the set's own
                     // table and trace jobs, not by likeness to the map)
                     let keys_of = |t: &Value| -> Vec<Value> {
